@@ -238,8 +238,46 @@ def rule_params(model):
                       f'parameter {p} is stored in `{got[p]}`', node=fi.node,
                       ctx=fi)
     # int_param decides literal vs variable by trying int()
-    for mshort in ('DT_In', 'DT_Util'):
-        ip = model.func(mshort, 'int_param')
+    ips = [model.find_func(ms, 'int_param') for ms in ('DT_In', 'DT_Util')]
+    ips = [x for x in ips if x is not None]
+    if not ips:
+        raise AnalysisError('C11.R3: int_param not found')
+    for ip in ips:
+        # the default stands in for a missing attribute only: it is taken
+        # where the parameter dictionary is consulted, not after the value
+        # of a variable has been looked up (the defaults are written as
+        # strings and rely on the int() conversion that follows)
+        ps_ = ip.params()
+        if len(ps_) >= 4:
+            dflt, pdict = ps_[3], ps_[0]
+            for x in own_nodes(ip.node):
+                if isinstance(x, ast.Assign) and isinstance(
+                        x.value, ast.Name) and x.value.id == dflt:
+                    okd = False
+                    node_ = x
+                    for anc in ancestors(x):
+                        if isinstance(anc, ast.Try) and any(
+                                isinstance(y, ast.Subscript) and
+                                norm(y.value) == pdict
+                                for b in anc.body for y in ast.walk(b)):
+                            okd = True
+                        if isinstance(anc, ast.If) and any(
+                                isinstance(y, ast.Name) and y.id == pdict
+                                for y in ast.walk(anc.test)):
+                            okd = True
+                        if isinstance(anc, ast.FunctionDef):
+                            break
+                        node_ = anc
+                    r.instance(ip.where, x, 'default for a missing '
+                               'attribute' if okd else 'DEFAULT AFTER LOOKUP')
+                    if not okd:
+                        r.finding(ip.where, x, 'the default is substituted '
+                                  'after the value was taken from a '
+                                  'variable: it is returned without the '
+                                  'integer conversion (the callers write '
+                                  "defaults such as '0' as strings), so the "
+                                  'window arithmetic gets a string',
+                                  node=x, ctx=ip)
         ok = False
         for t in own_nodes(ip.node):
             if isinstance(t, ast.Try):
